@@ -51,6 +51,12 @@ pub enum AddShredError {
     Equivocation,
     #[error("shred was invalid and leader did not equivocate")]
     InvalidShred,
+    /// The shred's data/coding type does not fit its index.
+    ///
+    /// The type is not authenticated, so this is the doing of whoever passed the shred on,
+    /// not of the leader: the shred is ignored, like a duplicate.
+    #[error("shred's type does not match its index")]
+    WrongType,
 }
 
 /// Holds all data corresponding to any blocks for a single slot.
@@ -215,6 +221,19 @@ impl BlockData {
         shred: ValidatedShred,
         shredder: &mut RegularShredder,
     ) -> Result<Option<BlockstoreEvent>, AddShredError> {
+        // the data/coding type is not covered by the leader's signature; a shred whose type
+        // does not fit its index was altered in transit and would only make the slice
+        // undecodable: drop it before it is stored or its commitment is cached
+        if !RegularShredder::has_expected_type(shred.as_shred()) {
+            debug!(
+                "dropping shred {}-{} of wrong type in slot {}",
+                shred.payload().header.slice_index,
+                shred.payload().shred_index,
+                self.slot
+            );
+            return Err(AddShredError::WrongType);
+        }
+
         let header = &shred.payload().header;
         debug_assert_eq!(header.slot, self.slot);
         let slice_index = header.slice_index;
